@@ -26,12 +26,16 @@ if [ -z "$demos" ]; then
 fi
 echo "demo files: $demos" >> $L
 ok=1
+# the worktree must carry exactly MUTATION/patch.diff (never `git stash`: worktrees share one stash)
+git -C $W checkout -- . && git -C $W apply $W/MUTATION/patch.diff || { echo "$id: patch.diff does not apply to a clean tree"; exit 1; }
 go build ./... >> $L 2>&1 || { echo "$id: DOES NOT COMPILE"; exit 1; }
-echo "== existing tests with the change" >> $L
+echo "== existing tests with the change (demo files moved aside)" >> $L
+mkdir -p /tmp/mut/$id.demos; for d in $demos; do mv $W/$d /tmp/mut/$id.demos/$(echo $d | tr / %); done
 go test -vet=off -count=1 ./recovery/... ./storage/... ./catalog/... ./parser/... ./planner/... ./samehada/samehada_util/... >> $L 2>&1 || ok=0
 # the stable tests of samehada_test (exclude the agent's demo by name)
 go test -vet=off -count=1 -run 'TestHasJoinSelect|TestInsertAndMultiItemPredicateSelect|TestParallelQueryIssue|TestParallelQueryIssueSelectUpdate|TestRebootAndReturnIFValuesWithCheckpoint|TestSimpleDelete|TestSimpleUpdate' ./samehada/samehada_test/ >> $L 2>&1 || ok=0
 [ $ok = 1 ] && echo "existing tests: PASS" >> $L || echo "existing tests: FAIL" >> $L
+for d in $demos; do mv /tmp/mut/$id.demos/$(echo $d | tr / %) $W/$d; done; rmdir /tmp/mut/$id.demos
 demo_pkgs=""
 for d in $demos; do demo_pkgs="$demo_pkgs ./$(dirname ${d#lib/})/"; done
 demo_pkgs=$(echo $demo_pkgs | tr ' ' '\n' | sort -u | tr '\n' ' ')
@@ -39,8 +43,8 @@ names=$(cat $(for d in $demos; do echo $W/$d; done) 2>/dev/null | grep -o '^func
 echo "== demo ($names) in $demo_pkgs WITH the change" >> $L
 go test -vet=off -count=1 -run "$names" $demo_pkgs >> $L 2>&1; with=$?
 # without: revert tracked changes only
-git -C $W stash -q
+git -C $W checkout -- .
 echo "== demo WITHOUT the change" >> $L
 go test -vet=off -count=1 -run "$names" $demo_pkgs >> $L 2>&1; without=$?
-git -C $W stash pop -q
+git -C $W apply $W/MUTATION/patch.diff
 echo "$id: compile=ok existing_tests=$([ $ok = 1 ] && echo pass || echo FAIL) demo_with_change_exit=$with demo_without_change_exit=$without"
